@@ -69,14 +69,21 @@ type c07Env struct {
 	usedTx  map[string]uint64 // tx hash -> message id it produced effects for
 	fxSeen  map[uint64]bool   // message ids that produced success effects
 	lines   []string
+	silent  bool     // do not write op lines (the env is driven from another property's test)
+	panics  []string // op histories of attestations that panicked
 }
 
 func (e *c07Env) op(line, out string) {
 	e.lines = append(e.lines, line)
-	e.r.Op(line, out)
+	if !e.silent {
+		e.r.Op(line, out)
+	}
 }
 
-func newC07Env(t *testing.T, r *Rec, seed int64) *c07Env {
+func newC07Env(t *testing.T, r *Rec, seed int64) *c07Env { return newC07EnvOpt(t, r, seed, false) }
+
+// newC07EnvOpt: silent = write no op lines at all (the env is driven from another property's test).
+func newC07EnvOpt(t *testing.T, r *Rec, seed int64, silent bool) *c07Env {
 	abiJSON := c05CompassABI(t)
 	a, err := abi.JSON(strings.NewReader(abiJSON))
 	if err != nil {
@@ -101,7 +108,7 @@ func newC07Env(t *testing.T, r *Rec, seed int64) *c07Env {
 	e := &c07Env{
 		t: t, r: r, fa: fa, abi: a, abiJSON: abiJSON, chainID: big.NewInt(4242), key: key,
 		queue: consensustypes.Queue(evmtypes.ConsensusTurnstoneMessage, "evm", c07Chain),
-		known: map[uint64]bool{}, usedTx: map[string]uint64{}, fxSeen: map[uint64]bool{},
+		known: map[uint64]bool{}, usedTx: map[string]uint64{}, fxSeen: map[uint64]bool{}, silent: silent,
 	}
 	e.op("reset", "ok")
 	return e
@@ -534,6 +541,19 @@ type c07Tx struct {
 	what    string
 	status  int // receipt the relayer's transaction really got: 1 ok, 0 failed, -1 no receipt
 	log     bool
+	shape   int // what else the receipt's log list looks like (c07LogShapes); carried in the evidence variant as 10*shape
+}
+
+// c07LogShapes: receipts are relayer/validator-supplied bytes. 0 = an ordinary foreign log before the
+// ContractDeployed event; 1 = an anonymous log (LOG0, no topics) FIRST: the attester refuses the
+// receipt before it reaches the event; 2 = an anonymous log LAST (never looked at); 3 = the event's
+// topic with empty data (does not unpack); 4 = a four-topic log first.
+const c07LogShapes = 5
+
+// effLog: does the receipt carry a ContractDeployed event the attester can reach and decode?
+func (v c07Ev) effLog() bool {
+	s := v.variant / 10
+	return v.log && s != 1 && s != 3
 }
 
 // c07Ev is ONE validator's evidence for a message.  Validators need not agree: neither on the
@@ -574,7 +594,7 @@ func (v c07Ev) token() string {
 	if v.status >= 0 {
 		st = fmt.Sprint(v.status)
 	}
-	return fmt.Sprintf("%d;tx;%s;%s;%s;%s;%d;%d", v.val+1, new(big.Int).SetBytes(v.tx.tx.Hash().Bytes()), st, c05X(v.tx.tx.Data()), c07B(v.log), v.variant, v.enc)
+	return fmt.Sprintf("%d;tx;%s;%s;%s;%s;%d;%d", v.val+1, new(big.Int).SetBytes(v.tx.tx.Hash().Bytes()), st, c05X(v.tx.tx.Data()), c07B(v.effLog()), v.variant, v.enc)
 }
 
 // c07BlobBody is the field list of an EIP-4844 transaction (go-ethereum's BlobTx) in RLP order.
@@ -710,15 +730,30 @@ func (e *c07Env) receipt(txType uint8, status int, withLog bool, variant int) []
 		return nil
 	}
 	rc := &ethtypes.Receipt{Type: txType, Status: uint64(status), CumulativeGasUsed: 21000 + uint64(variant)}
+	shape := variant / 10
+	other := ethcrypto.Keccak256Hash([]byte("Other()"))
 	// an unrelated log first, then (optionally) the ContractDeployed event
-	rc.Logs = append(rc.Logs, &ethtypes.Log{Address: common.HexToAddress("0xC0"), Topics: []common.Hash{ethcrypto.Keccak256Hash([]byte("Other()"))}})
+	switch shape {
+	case 1:
+		rc.Logs = append(rc.Logs, &ethtypes.Log{Address: common.HexToAddress("0xC0"), Topics: nil, Data: []byte{1, 2, 3}})
+	case 4:
+		rc.Logs = append(rc.Logs, &ethtypes.Log{Address: common.HexToAddress("0xC0"), Topics: []common.Hash{other, other, other, other}})
+	default:
+		rc.Logs = append(rc.Logs, &ethtypes.Log{Address: common.HexToAddress("0xC0"), Topics: []common.Hash{other}})
+	}
 	if withLog {
 		ev := e.abi.Events["ContractDeployed"]
 		data, err := ev.Inputs.NonIndexed().Pack(common.HexToAddress("0xDE9107ED"), common.HexToAddress("0xD1"), big.NewInt(7))
 		if err != nil {
 			e.t.Fatal(err)
 		}
+		if shape == 3 {
+			data = nil
+		}
 		rc.Logs = append(rc.Logs, &ethtypes.Log{Address: common.HexToAddress("0xC0"), Topics: []common.Hash{ev.ID}, Data: data})
+	}
+	if shape == 2 {
+		rc.Logs = append(rc.Logs, &ethtypes.Log{Address: common.HexToAddress("0xC0"), Topics: nil})
 	}
 	bz, err := rc.MarshalBinary()
 	if err != nil {
@@ -747,7 +782,7 @@ func (e *c07Env) proof(v c07Ev) *codectypes.Any {
 func (tx *c07Tx) evs(vals []int) []c07Ev {
 	var out []c07Ev
 	for _, i := range vals {
-		out = append(out, c07Ev{val: i, kind: "tx", tx: tx, status: tx.status, log: tx.log, enc: tx.enc})
+		out = append(out, c07Ev{val: i, kind: "tx", tx: tx, status: tx.status, log: tx.log, variant: 10 * tx.shape, enc: tx.enc})
 	}
 	return out
 }
@@ -763,6 +798,7 @@ type c07Force struct {
 	enc      int    // serialization the reporters use
 	resubmit bool   // re-submit the transaction for a second, identical message ...
 	resubEnc int    // ... in this serialization
+	logShape int    // usc: shape of the receipt's log list (c07LogShapes)
 }
 
 func (f *c07Force) txClass() string {
@@ -933,6 +969,9 @@ func (e *c07Env) buildTx(s *c07Stored, f *c07Force) *c07Tx {
 	}
 	e.r.Stat(fmt.Sprintf("txclass:%s:enc=%d", class, out.enc))
 	if f != nil {
+		if s.msg.GetUploadUserSmartContract() != nil {
+			out.shape = f.logShape
+		}
 		return out
 	}
 	switch r.Intn(8) {
@@ -943,8 +982,14 @@ func (e *c07Env) buildTx(s *c07Stored, f *c07Force) *c07Tx {
 			out.status = -1
 		}
 	}
-	if s.msg.GetUploadUserSmartContract() != nil && r.Intn(6) == 0 {
-		out.log = false
+	if s.msg.GetUploadUserSmartContract() != nil {
+		switch r.Intn(8) {
+		case 0:
+			out.log = false
+		case 1, 2, 3:
+			out.shape = 1 + r.Intn(c07LogShapes-1)
+			e.r.Stat(fmt.Sprintf("usc-receipt-log-shape:%d", out.shape))
+		}
 	}
 	return out
 }
@@ -1198,6 +1243,7 @@ func (e *c07Env) attest(ctx sdk.Context, id uint64, evs []c07Ev, kind string) (c
 	}
 	if class == "panic" {
 		e.r.Stat("attest:panic")
+		e.panics = append(e.panics, strings.Join(e.lines, " | "))
 	}
 	return class, fx
 }
@@ -1418,7 +1464,25 @@ func c07Directed(t *testing.T, r *Rec) {
 	for _, encs := range [][2]int{{0, 0}, {1, 1}, {1, 0}, {0, 2}} {
 		run("slc", &c07Force{class: "blob", enc: encs[0], resubmit: true, resubEnc: encs[1]})
 	}
+	for shape := 0; shape < c07LogShapes; shape++ {
+		run("usc", &c07Force{logShape: shape})
+	}
 	r.Stat(fmt.Sprintf("directed-cases:%d", n))
+}
+
+// c07HostileReceipts (used by the C09 check): user contract uploads relayed with a fully valid
+// transaction whose receipt carries every log-list shape, attested by all validators. Returns the op
+// histories of the cases in which the attestation loop of the consensus end-blocker panicked (it
+// has no recover, so a panic there is an aborted block). Nothing is written to r's op stream.
+func c07HostileReceipts(t *testing.T, r *Rec) []string {
+	e := newC07EnvOpt(t, r, r.Seed*1000+997, true)
+	for shape := 0; shape < c07LogShapes; shape++ {
+		for _, class := range []string{"dyn", "legacy"} {
+			e.runCase(fmt.Sprintf("hostile receipt shape %d", shape), "usc", &c07Force{logShape: shape, class: class})
+		}
+		e.fa.NextBlock()
+	}
+	return e.panics
 }
 
 // driveMessage takes message id through estimate, signatures, public access data, evidence and
@@ -1528,7 +1592,7 @@ func (e *c07Env) driveMessage(ctx sdk.Context, id uint64, kind string, caseKey *
 		evs = tx.evs(perm)
 		k := 1 + r.Rng.Intn(2)
 		for i := 0; i < k; i++ {
-			evs[i].variant = 1 + r.Rng.Intn(3)
+			evs[i].variant = 10*tx.shape + 1 + r.Rng.Intn(3)
 		}
 		if k == 1 {
 			mode += "-1:3"
